@@ -154,6 +154,32 @@ theorem dsep_equiv_congr (G H : MG α) (hG : G.WF) (hH : H.WF) (h : G.equiv H = 
       cases s <;> cases s' <;> simp_all
   · rw [dSeparated_invalid G a b C hq, dSeparated_invalid H a b C (fun h => hq (hv.2 h))]
 
+/-- the conditioning set matters only as a set: order and repetition inside `C` are irrelevant -/
+theorem dsep_cond_congr (G : MG α) (hG : G.WF) (a b : α) (C C' : List α) (h : ∀ x, x ∈ C ↔ x ∈ C') :
+    G.dSeparated a b C = G.dSeparated a b C' := by
+  have hv : G.ValidQuery a b C ↔ G.ValidQuery a b C' := by
+    simp only [ValidQuery]
+    constructor <;> rintro ⟨h1, h2, h3⟩ <;> exact ⟨h1, h2, fun c hc => h3 c (by simpa [h] using hc)⟩
+  have hanc : G.Anc (a :: b :: C) = G.Anc (a :: b :: C') := by
+    funext w; simp only [Anc, List.mem_cons, h]
+  have hstep : G.AugStep a b C = G.AugStep a b C' := by
+    funext u v; simp only [AugStep, hanc, h]
+  by_cases hq : G.ValidQuery a b C
+  · have hq' := hv.1 hq
+    by_cases hc : a ∈ C ∨ b ∈ C
+    · rw [dSeparated_endpoint_conditioned G hG a b C hq hc,
+        dSeparated_endpoint_conditioned G hG a b C' hq' (by simpa [h] using hc)]
+    · have ha : a ∉ C := fun h => hc (Or.inl h)
+      have hb : b ∉ C := fun h => hc (Or.inr h)
+      obtain ⟨s, hs, h1⟩ := dSeparated_verdict G hG a b C hq ha hb
+      obtain ⟨s', hs', h2⟩ := dSeparated_verdict G hG a b C' hq' (by simpa [h] using ha) (by simpa [h] using hb)
+      rw [hs, hs']
+      congr 1
+      have : s = true ↔ s' = true := by
+        rw [h1, h2]; simp only [AugSeparated, AugConnected, hstep]
+      cases s <;> cases s' <;> simp_all
+  · rw [dSeparated_invalid G a b C hq, dSeparated_invalid G a b C' (fun h' => hq (hv.2 h'))]
+
 /-! ## 6. the augmented-graph criterion is m-separation, which is d-separation in the canonical DAG
 
 The classical theorem (Lauritzen, Dawid, Larsen & Leimer 1990 for DAGs; Richardson 2003 for ADMGs), proved here
